@@ -290,6 +290,58 @@ pub fn run(args: &Args) {
         }
         out.ev(json!({"ev":"ayport","ops":ops}));
     }
+    // ---- the same chip behind the Spectrum's ports: every write of R13 restarts the envelope, also one that repeats the
+    // value the register already holds. A one-shot shape (decay, then silence) is started, left to die away, and written again.
+    for i in 0..n.max(8) {
+        let m128 = i % 2 == 1;
+        let mut cfg = EmuCfg::new(m128);
+        cfg.sound = true;
+        cfg.ay = true;
+        let mut emu = cfg.build();
+        poke_bytes(&mut emu, 0x8000, &[0xED, 0x79, 0x18, 0xFE]);
+        let mut wr = |emu: &mut Emu, reg: u8, val: u8| {
+            for (port, v) in [(0xFFFDu16, reg), (0xBFFD, val)] {
+                let c = emu.verif_cpu();
+                c.regs.set_bc(port);
+                c.regs.set_acc(v);
+                c.regs.set_pc(0x8000);
+                c.regs.set_iff1(false);
+                step(emu);
+            }
+        };
+        let frame_energy = |emu: &mut Emu| -> u64 {
+            {
+                let c = emu.verif_cpu();
+                c.regs.set_pc(0x8002);
+                c.regs.set_iff1(false);
+            }
+            emu.set_debug_interface(VDebug::Never);
+            emu.set_speed(rustzx_core::EmulationMode::FrameCount(1));
+            let _ = emu.emulate_frames(std::time::Duration::from_secs(100));
+            let mut s = vec![];
+            while let Some(x) = emu.next_audio_sample() {
+                s.push(x.left as f64 + x.right as f64);
+            }
+            let mean = s.iter().sum::<f64>() / s.len().max(1) as f64;
+            (s.iter().map(|x| (x - mean).abs()).sum::<f64>() * 1000.0) as u64
+        };
+        let shape = *r.pick(&[0u8, 1, 2, 3, 9, 4, 5, 6, 7, 15]); // one ramp, then silence
+        let second = if i % 4 == 3 { *r.pick(&[0u8, 9, 4, 15]) } else { shape }; // mostly the very same value again
+        wr(&mut emu, 7, 0x3F);
+        wr(&mut emu, 8, 0x10);
+        wr(&mut emu, 11, 0x00);
+        wr(&mut emu, 12, 0x02);
+        wr(&mut emu, 13, shape);
+        let first_burst = frame_energy(&mut emu);
+        let mut quiet = 0;
+        for _ in 0..9 {
+            quiet = frame_energy(&mut emu);
+        }
+        wr(&mut emu, 13, second);
+        let second_burst = frame_energy(&mut emu);
+        out.ev(json!({"ev":"ayretrig","m": if m128 {128} else {48},"shape":shape,"second":second,"first_burst":first_burst,"quiet":quiet,
+                      "second_burst":second_burst}));
+    }
     let nn = out.finish();
     eprintln!("ay: {nn} events");
 }
